@@ -432,6 +432,11 @@ func urlEquivalent(a, b string) bool {
 	if a == b {
 		return true
 	}
+	// a present-but-empty query names the same endpoint as no query (the message parameters are appended to it either way)
+	a, b = strings.TrimSuffix(a, "?"), strings.TrimSuffix(b, "?")
+	if a == b {
+		return true
+	}
 	da, err1 := url.PathUnescape(a)
 	db, err2 := url.PathUnescape(b)
 	if err1 != nil {
